@@ -1106,4 +1106,71 @@ theorem grid_lines_ok {s : St} (hs : Shape s) (hok : ∀ col ∈ s.rcols, ColOK 
         rw [hl]; rfl
   · cases hy
 
+
+/-! ## `reset_all` -/
+
+def resetWrites (q : Nat) : Nat → List (Nat × Sym)
+  | 0 => []
+  | n+1 => (q, .reset) :: resetWrites (q+1) n
+
+theorem resetLoop_inRange {n q : Nat} {s s' : St} (hr : s.ranges ≠ []) (hc : s.rcols ≠ [])
+    (h : resetLoop q n s = .ok s') :
+    Wrote s s' (resetWrites q n) ∧ s'.ranges = s.ranges ∧ s'.controlled = s.controlled := by
+  induction n generalizing q s with
+  | zero =>
+    simp only [resetLoop] at h; injection h with h; subst h
+    exact ⟨wrote_nil_of hc rfl rfl rfl rfl rfl (fun _ h => h), rfl, rfl⟩
+  | succ n ih =>
+    simp only [resetLoop, setReset] at h
+    obtain ⟨s1, h1, h⟩ := Res.bind_eq_ok.mp h
+    obtain ⟨hw1, hr1, hc1⟩ := setField_inRange hr h1
+    obtain ⟨hw2, hr2, hc2⟩ := ih (by rw [hr1]; exact hr) hw1.rcols_ne h
+    exact ⟨by simpa [resetWrites] using hw1.trans hw2, hr2.trans hr1, hc2.trans hc1⟩
+
+theorem resetWrites_rows (q n : Nat) : ∀ p ∈ resetWrites q n, q ≤ p.1 ∧ p.1 < q + n ∧ p.2 = .reset := by
+  induction n generalizing q with
+  | zero => intro p hp; cases hp
+  | succ n ih =>
+    intro p hp
+    simp only [resetWrites, List.mem_cons] at hp
+    rcases hp with rfl | hp
+    · exact ⟨Nat.le_refl _, by omega, rfl⟩
+    · obtain ⟨h1, h2, h3⟩ := ih (q+1) p hp
+      exact ⟨by omega, by omega, h3⟩
+
+theorem resetWrites_nodup (q n : Nat) : ((resetWrites q n).map (·.1)).Nodup := by
+  induction n generalizing q with
+  | zero => simp [resetWrites]
+  | succ n ih =>
+    simp only [resetWrites, List.map_cons, List.nodup_cons]
+    refine ⟨?_, ih (q+1)⟩
+    intro hm
+    obtain ⟨p, hp, hp1⟩ := List.mem_map.mp hm
+    have := (resetWrites_rows (q+1) n p hp).1
+    omega
+
+theorem inv_resetAll {nq : Nat} {s s' : St} (hinv : Inv s) (h : opLatex nq .resetAll s = .ok s') : Inv s' := by
+  simp only [opLatex] at h
+  split at h
+  · cases h
+  · rename_i n
+    obtain ⟨sx, hx, _⟩ := Res.bind_eq_ok.mp h
+    have hb := getBitIndices_none_ok_of_start hx
+    have h' : (startRangeOp [0, n] none s >>== fun s1 =>
+        (fun s1 => resetLoop 0 (n+1) s1) s1 >>== endRangeOp) = .ok s' := by
+      simpa [bind_assoc] using h
+    obtain ⟨s0, _, hw, hr, _, hfree⟩ := range_op (ws := resetWrites 0 (n+1)) hb (by simp) (ready_top hinv)
+      (by
+        intro s1 s2 hrn hcn _ _ _ _ hbody
+        exact resetLoop_inRange hrn hcn hbody)
+      (by
+        intro p hp
+        obtain ⟨h1, h2, _⟩ := resetWrites_rows 0 (n+1) p hp
+        exact ⟨0, by simp, n, by simp, h1, by omega⟩) h'
+    obtain ⟨hi0, hf⟩ := hfree hinv.noRange
+    refine inv_of_wrote hi0 hw (by rw [hr]; exact hinv.noRange) hf (resetWrites_nodup 0 (n+1)) ?_
+    intro p hp l hl
+    rw [(resetWrites_rows 0 (n+1) p hp).2.2] at hl
+    simp [Sym.lines] at hl
+
 end Q1t.Proofs.Latex
